@@ -3,13 +3,243 @@
 
 use super::c01::{self_consistent, POOL, POOL_ROOTS};
 use super::common::{via_binary, via_builder, via_jax, AnnGroups};
-use crate::ctx::Ctx;
+use crate::ctx::{guard, Ctx};
 use crate::drive;
 use crate::encode::EncOpts;
 use crate::jax::{self, JaxOpts};
-use crate::model::{AnnFact, Facts, Mode, RefOnt};
+use crate::model::{ic_value, AnnFact, Facts, Kind, Mode, RefOnt, KINDS};
+use crate::obs::Obs;
 use crate::space::{all_dags, permutations, Dag};
-use serde_json::json;
+use hpo::Ontology;
+use serde_json::{json, Value};
+
+/// The shared annotation groups plus one more bare gene: the record totals are then 6 genes / 3 OMIM / 5 ORPHA -
+/// three different numbers, so that an information content computed with another kind's total differs on every
+/// path that can carry bare records (the shared groups alone have 5 / 3 / 5).
+pub fn ann_groups(s: u32, ids: &[u32]) -> AnnGroups {
+    let mut g = AnnGroups::new(s, ids);
+    g.bare.push(Facts::ann(Kind::Gene, 3636, "G6", None));
+    g
+}
+
+/// The text formats cannot carry bare records; so that the three totals differ there as well (and none of them is 1),
+/// the text-path fact sets get four more annotated records: genes 55 and 56 and ORPHA 81 / OMIM 600055 on the first
+/// and the last term. Totals for a proper subset S: 4 genes / 2 OMIM / 3 ORPHA.
+fn text_extras(g: &mut AnnGroups, ids: &[u32]) {
+    let (first, last) = (ids[0], ids[ids.len() - 1]);
+    g.g2.push(Facts::ann(Kind::Gene, 55, "GENE55", Some(first)));
+    g.g2.push(Facts::ann(Kind::Gene, 56, "GENE56", Some(last)));
+    g.o1.push(Facts::ann(Kind::Omim, 600_055, "Disease fifty-five", Some(first)));
+    g.r1.push(Facts::ann(Kind::Orpha, 81, "Orpha eighty-one", Some(last)));
+}
+
+/// What the statement leaves open about an input (DESIGN 2.10): such inputs get the policy-neutral oracle
+/// "refused, or everything the statement demands holds".
+#[derive(Clone, Copy, Default)]
+struct Open {
+    /// the constructor may refuse the input
+    refusal: bool,
+    /// records WITHOUT any term that no fact names may exist in the result: they are linked to no term and list no
+    /// term, so the statement's "if and only if" holds for them (a NOT-only disease registered by a loader, a
+    /// record registered by a call that then fails)
+    bare_extras: bool,
+}
+
+/// Observe `ont` and compare it with the model, granting what `open` leaves open. The information content is
+/// judged against the number of records the ontology itself reports (N) when bare extras are present.
+fn judge(ctx: &mut Ctx, ont: &Ontology, r: &RefOnt, mode: Mode, path: &str, case: &dyn Fn() -> Value, open: Open) -> Option<Obs> {
+    ctx.exec();
+    ctx.validated();
+    match Obs::of(ont) {
+        Err(inc) => {
+            ctx.violation(&inc.site, &format!("[{path}] read API inconsistent or panicking"), json!({"path": path, "case": case(), "observed": inc.what}));
+            None
+        }
+        Ok(mut obs) => {
+            let mut exp = Obs::expected(r, mode);
+            if open.bare_extras {
+                for k in KINDS {
+                    let total = obs.recs[k.idx()].len();
+                    let before = total;
+                    obs.recs[k.idx()].retain(|x| !x.terms.is_empty() || r.recs[k.idx()].contains_key(&x.id));
+                    if obs.recs[k.idx()].len() != before {
+                        ctx.bump("term_less_records_no_fact_names_tolerated", (before - obs.recs[k.idx()].len()) as u64);
+                        for t in exp.terms.iter_mut() {
+                            t.ic[k.idx()] = ic_value(total, t.recs[k.idx()].len());
+                        }
+                    }
+                }
+            }
+            if let Some((site, sig, det)) = obs.diff(&exp, false) {
+                ctx.violation(&site, &format!("[{path}] {sig}"), json!({"path": path, "case": case(), "difference": det}));
+            }
+            ctx.outcome(obs.fingerprint());
+            Some(obs)
+        }
+    }
+}
+
+/// The text path with an open point: like `common::via_jax`, but a refusal / extra term-less records are granted
+/// as `open` says.
+fn via_jax_open(ctx: &mut Ctx, f: &Facts, o: &JaxOpts, transitive: bool, what: &str, open: Open) {
+    let mut tf = f.clone();
+    tf.anns.retain(|a| a.term.is_some());
+    let r = RefOnt::derive(&tf);
+    ctx.transitions(tf.n_steps());
+    let rendered = jax::render(&tf, o);
+    let case = || -> Value { json!({"facts": tf.to_json(), "order": what, "options": format!("{o:?}"), "transitive_loader": transitive, "hp.obo": rendered.obo, "phenotype.hpoa": rendered.hpoa, "genes": if transitive { &rendered.phenotype_to_genes } else { &rendered.genes_to_phenotype }}) };
+    let path = if transitive { "jax transitive" } else { "jax" };
+    match jax::load(&rendered, transitive) {
+        Ok(Ok(ont)) => {
+            judge(ctx, &ont, &r, Mode::Defaults, path, &case, open);
+        }
+        Ok(Err(_)) if open.refusal => {
+            ctx.exec();
+            ctx.bump("open_input_refused", 1);
+        }
+        Ok(Err(e)) => {
+            ctx.exec();
+            ctx.violation("Ontology::from_standard", &format!("[{path}] rejects valid JAX files"), json!({"case": case(), "observed": e}));
+        }
+        Err(p) => {
+            ctx.exec();
+            ctx.violation("Ontology::from_standard", &format!("[{path}] panics on valid JAX files"), json!({"case": case(), "observed": p}));
+        }
+    }
+}
+
+/// The decoder path with an open point: like `common::via_binary`, but a refusal is granted as `open` says.
+fn via_binary_open(ctx: &mut Ctx, f: &Facts, version: u8, what: &str, open: Open) {
+    let pf = crate::encode::project(f, version);
+    let r = RefOnt::derive(&pf);
+    ctx.transitions(pf.n_steps());
+    let bytes = crate::encode::encode(&pf, &EncOpts::v(version));
+    let case = || json!({"facts": pf.to_json(), "format_version": version, "order": what, "bytes_len": bytes.len()});
+    match drive::from_bytes(&bytes) {
+        Ok(Ok(ont)) => {
+            judge(ctx, &ont, &r, Mode::Defaults, &format!("binary v{version}"), &case, open);
+        }
+        Ok(Err(_)) if open.refusal => {
+            ctx.exec();
+            ctx.bump("open_input_refused", 1);
+        }
+        Ok(Err(e)) => {
+            ctx.exec();
+            ctx.violation("Ontology::from_bytes", &format!("[binary v{version}] rejects a file laid out as documented"), json!({"case": case(), "observed": e}));
+        }
+        Err(p) => {
+            ctx.exec();
+            ctx.violation("Ontology::from_bytes", &format!("[binary v{version}] panics on a file laid out as documented"), json!({"case": case(), "observed": p}));
+        }
+    }
+}
+
+/// How a Builder run with unresolvable calls ended
+enum Unresolvable {
+    Built(Ontology),
+    /// a call with valid arguments failed or panicked
+    ValidCallFailed(String),
+    /// a call naming an absent term panicked (what such a call does is C15's statement; no verdict here)
+    OpenCallPanicked,
+}
+
+/// The Builder driven with the facts in list order; after every `annotate_*` the same call (same record, then a
+/// record id used nowhere else) naming an ABSENT term. Whether such a call returns an error or accepts silently is
+/// not this property's business (C15 states it); it is not a fact either way, and its result is ignored.
+fn build_with_unresolvable(f: &Facts, mode: Mode, absent: &[u32]) -> Unresolvable {
+    use hpo::builder::Builder;
+    let mut b = Builder::new();
+    for t in &f.terms {
+        b.new_term(&t.name, t.id);
+    }
+    b.set_hpo_version(f.version);
+    let mut b = b.terms_complete();
+    for &(c, p) in &f.edges {
+        if let Err(e) = b.add_parent(p, c) {
+            return Unresolvable::ValidCallFailed(format!("add_parent({p},{c}): {e}"));
+        }
+    }
+    let mut b = b.connect_all_terms();
+    let fresh = 4_000_000u32;
+    for (i, a) in f.anns.iter().enumerate() {
+        let x = absent[i % absent.len()];
+        let valid: Result<Result<(), String>, String> = guard(|| match (a.kind, a.term) {
+            (Kind::Gene, Some(t)) => b.annotate_gene(a.id.into(), &a.name, t.into()).map_err(|e| format!("annotate_gene({},{t}): {e}", a.id)),
+            (Kind::Omim, Some(t)) => b.annotate_omim_disease(a.id.into(), &a.name, t.into()).map_err(|e| format!("annotate_omim_disease({},{t}): {e}", a.id)),
+            (Kind::Orpha, Some(t)) => b.annotate_orpha_disease(a.id.into(), &a.name, t.into()).map_err(|e| format!("annotate_orpha_disease({},{t}): {e}", a.id)),
+            (Kind::Gene, None) => {
+                b.add_gene(&a.name, a.id.into());
+                Ok(())
+            }
+            (Kind::Omim, None) => {
+                b.add_omim_disease(&a.name, a.id.into());
+                Ok(())
+            }
+            (Kind::Orpha, None) => {
+                b.add_orpha_disease(&a.name, a.id.into());
+                Ok(())
+            }
+        });
+        match valid {
+            Ok(Ok(())) => {}
+            Ok(Err(e)) => return Unresolvable::ValidCallFailed(e),
+            Err(p) => return Unresolvable::ValidCallFailed(format!("panic: {p}")),
+        }
+        if a.term.is_some() {
+            let open = guard(|| match a.kind {
+                Kind::Gene => {
+                    let _ = b.annotate_gene(a.id.into(), &a.name, x.into());
+                    let _ = b.annotate_gene(fresh.into(), "NEVER", x.into());
+                }
+                Kind::Omim => {
+                    let _ = b.annotate_omim_disease(a.id.into(), &a.name, x.into());
+                    let _ = b.annotate_omim_disease(fresh.into(), "NEVER", x.into());
+                }
+                Kind::Orpha => {
+                    let _ = b.annotate_orpha_disease(a.id.into(), &a.name, x.into());
+                    let _ = b.annotate_orpha_disease(fresh.into(), "NEVER", x.into());
+                }
+            });
+            if open.is_err() {
+                return Unresolvable::OpenCallPanicked;
+            }
+        }
+    }
+    match guard(|| match b.calculate_information_content() {
+        Err(e) => Err(format!("calculate_information_content: {e}")),
+        Ok(b) => match mode {
+            Mode::Minimal => Ok(b.build_minimal()),
+            Mode::Defaults => b.build_with_defaults().map_err(|e| format!("build_with_defaults: {e}")),
+        },
+    }) {
+        Ok(Ok(o)) => Unresolvable::Built(o),
+        Ok(Err(e)) => Unresolvable::ValidCallFailed(e),
+        Err(p) => Unresolvable::ValidCallFailed(format!("panic: {p}")),
+    }
+}
+
+/// Run the facts through the Builder with calls naming absent terms interleaved, and compare with the model of the
+/// facts: every record lists exactly the terms of its facts, every id resolves, links = closure. A record
+/// WITHOUT terms that no fact names (left behind by such a call) is tolerated.
+fn via_builder_unresolvable(ctx: &mut Ctx, f: &Facts, r: &RefOnt, mode: Mode, what: &str) {
+    // absent ids inside the id space only (what a call does with an id >= 10^7 is outside every quantifier)
+    let absent: Vec<u32> = [3u32, 0, 9_999_999, 2, 119, 4096, 1_048_576].iter().copied().filter(|x| !f.terms.iter().any(|t| t.id == *x)).collect();
+    ctx.transitions(3 * f.n_steps());
+    match build_with_unresolvable(f, mode, &absent) {
+        Unresolvable::ValidCallFailed(e) => {
+            ctx.exec();
+            ctx.violation("Builder", "[builder, calls naming absent terms interleaved] construction fails on valid facts", json!({"case": f.to_json(), "observed": e, "order": what, "absent_ids_used": absent}));
+        }
+        Unresolvable::OpenCallPanicked => {
+            ctx.exec();
+            ctx.bump("call_naming_an_absent_term_panicked_no_verdict", 1);
+        }
+        Unresolvable::Built(ont) => {
+            let case = || json!({"facts": f.to_json(), "order": what, "additional_calls": "after every annotate_*: the same call and one for a fresh record id (4000000), both with an absent term id; their return value is ignored", "absent_ids_used_in_rotation": absent});
+            judge(ctx, &ont, r, mode, "builder, calls naming absent terms interleaved", &case, Open { refusal: false, bare_extras: true });
+        }
+    }
+}
 
 /// Flag pattern derived from the annotated subset: every second annotated non-root term is obsolete,
 /// the last term (if not a root) names the first term as replacement. Flags do not change any link.
@@ -87,13 +317,41 @@ pub fn orders(groups: &AnnGroups) -> Vec<(Vec<AnnFact>, String)> {
     out
 }
 
+/// Fact set over the first three ids of POOL_ROOTS in which records of one kind SHARE their name: genes 11 <- S and
+/// 12 <- complement(S) both named SAME, OMIM 1 <- S and 2 <- rot1(S) both named 'Same disease', ORPHA 1 <- rot2(S)
+/// and 2 <- S with that name too, a bare gene 13 named SAME (names are not keys). Also used by C14.
+pub fn same_named_facts(d: &Dag, s: u32) -> Facts {
+    let n = d.n;
+    let mut f = Facts::from_dag(d, &POOL_ROOTS);
+    f.version = (2024, 2, 29);
+    let ids: Vec<u32> = f.terms.iter().map(|t| t.id).collect();
+    let full = (1u32 << n) - 1;
+    let on = |mask: u32| -> Vec<u32> { crate::space::bits(mask & full, n).iter().map(|i| ids[*i]).collect() };
+    for t in on(s) {
+        f.anns.push(Facts::ann(Kind::Gene, 11, "SAME", Some(t)));
+        f.anns.push(Facts::ann(Kind::Omim, 1, "Same disease", Some(t)));
+        f.anns.push(Facts::ann(Kind::Orpha, 2, "Same disease", Some(t)));
+    }
+    for t in on(!s) {
+        f.anns.push(Facts::ann(Kind::Gene, 12, "SAME", Some(t)));
+    }
+    for t in on(super::common::rot(s, 1, n)) {
+        f.anns.push(Facts::ann(Kind::Omim, 2, "Same disease", Some(t)));
+    }
+    for t in on(super::common::rot(s, 2, n)) {
+        f.anns.push(Facts::ann(Kind::Orpha, 1, "Same disease", Some(t)));
+    }
+    f.anns.push(Facts::ann(Kind::Gene, 13, "SAME", None));
+    f
+}
+
 pub fn explore(ctx: &mut Ctx, label: &str) {
     let thorough = ctx.tier.thorough();
     // ---- builder path
     let max_n = if thorough { 5 } else { 4 };
     for n in 1..=max_n {
         let dags = all_dags(n);
-        ctx.space(&format!("{label}/builder/D{n}/all-subsets-x-all-orders"), &format!("{} labelled DAGs x 2^{n} annotated subsets S (g1<-S, g2<-~S, omim<-rot1 S, orpha<-rot2 S, bare gene+omim) x |S|! orders + interleaving + repeated facts", dags.len()));
+        ctx.space(&format!("{label}/builder/D{n}/all-subsets-x-all-orders"), &format!("{} labelled DAGs x 2^{n} annotated subsets S (g1<-S, g2<-~S, omim<-rot1 S, orpha<-rot2 S, bare records of every kind) x |S|! orders of the gene's and of the disease facts + interleaving + bare registration of annotated records + repeated facts; D(<=4): additionally calls naming absent terms after every fact", dags.len()));
         for d in &dags {
             for s in 0..(1u32 << n) {
                 if !ctx.take() {
@@ -105,7 +363,7 @@ pub fn explore(ctx: &mut Ctx, label: &str) {
                 }
                 let base = Facts::from_dag(d, &POOL);
                 let ids: Vec<u32> = base.terms.iter().map(|t| t.id).collect();
-                let groups = AnnGroups::new(s, &ids);
+                let groups = ann_groups(s, &ids);
                 let ident: Vec<usize> = (0..groups.g1.len()).collect();
                 let r = RefOnt::derive(&Facts { anns: groups.sequential(&ident), ..base.clone() });
                 let all = if n == 5 {
@@ -120,9 +378,9 @@ pub fn explore(ctx: &mut Ctx, label: &str) {
                     via_builder(ctx, &f, &r, Mode::Minimal, &what);
                 }
                 if n <= 4 {
-                    // rejected calls (absent term ids) after every fact: a call that returns an error is not an annotation
+                    // calls naming absent term ids after every fact: whatever such a call returns, it is not an annotation
                     let f = Facts { anns: groups.interleaved(), ..base.clone() };
-                    super::common::via_builder_rejected(ctx, &f, &r, Mode::Minimal, "interleaved");
+                    via_builder_unresolvable(ctx, &f, &r, Mode::Minimal, "interleaved");
                 }
                 ctx.sample(|| json!({"dag": d.describe(), "ids": ids, "S": crate::space::bits(s, n), "orders": n_orders}));
             }
@@ -148,7 +406,7 @@ pub fn explore(ctx: &mut Ctx, label: &str) {
                 if s.count_ones() > 2 {
                     continue;
                 }
-                let groups = AnnGroups::new(s, &ids);
+                let groups = ann_groups(s, &ids);
                 let ident: Vec<usize> = (0..groups.g1.len()).collect();
                 let r = RefOnt::derive(&Facts { anns: groups.sequential(&ident), ..base.clone() });
                 for p in permutations(groups.g1.len()) {
@@ -158,13 +416,43 @@ pub fn explore(ctx: &mut Ctx, label: &str) {
             }
             ctx.sample(|| json!({"dag": d.describe(), "ids": ids, "subsets": 15}));
         }
+        // ... and every 16th 5-term graph with three annotated terms: the gene's three facts in their three rotations
+        // (a propagation fault that needs three annotated terms in a particular order on five terms)
+        ctx.space(&format!("{label}/builder/D5/three-annotated-terms"), &format!("every 16th of the {} labelled 5-term DAGs x 10 subsets S with |S| = 3 x the three rotations of the gene's facts", dags.len()));
+        for (di, d) in dags.iter().enumerate() {
+            if di % 16 != 5 {
+                continue;
+            }
+            if !ctx.take() {
+                continue;
+            }
+            ctx.state();
+            if d.has_diamond() {
+                ctx.nontrivial();
+            }
+            let base = Facts::from_dag(d, &POOL);
+            let ids: Vec<u32> = base.terms.iter().map(|t| t.id).collect();
+            for s in 1..(1u32 << n) {
+                if s.count_ones() != 3 {
+                    continue;
+                }
+                let groups = ann_groups(s, &ids);
+                let r = RefOnt::derive(&Facts { anns: groups.sequential(&[0, 1, 2]), ..base.clone() });
+                for p in [[0usize, 1, 2], [1, 2, 0], [2, 0, 1]] {
+                    let f = Facts { anns: groups.sequential(&p), ..base.clone() };
+                    via_builder(ctx, &f, &r, Mode::Minimal, &format!("g1 order {p:?}"));
+                }
+            }
+            ctx.sample(|| json!({"dag": d.describe(), "ids": ids, "subsets": 10}));
+        }
     }
 
     // ---- same record id supplied under different spellings of its name: which name survives is
-    // unspecified (don't-care), everything else must still hold
+    // unspecified (don't-care), and so is whether an annotate_* call that brings another name for a known id is
+    // accepted at all (the statement speaks of (record, term) facts); if the build succeeds everything else must hold
     for n in 2..=3usize {
         let dags = all_dags(n);
-        ctx.space(&format!("{label}/builder/D{n}/renamed-records"), &format!("{} labelled DAGs x 2^{n} subsets x |S|! orders; every later fact of a record spells the record's name differently", dags.len()));
+        ctx.space(&format!("{label}/builder/D{n}/renamed-records"), &format!("{} labelled DAGs x 2^{n} subsets x |S|! orders; every later fact of a record spells the record's name differently (an annotate_* call that refuses the other spelling ends the case without verdict)", dags.len()));
         for d in &dags {
             for s in 1..(1u32 << n) {
                 if !ctx.take() {
@@ -176,7 +464,7 @@ pub fn explore(ctx: &mut Ctx, label: &str) {
                 }
                 let base = Facts::from_dag(d, &POOL);
                 let ids: Vec<u32> = base.terms.iter().map(|t| t.id).collect();
-                let groups = AnnGroups::new(s, &ids);
+                let groups = ann_groups(s, &ids);
                 for p in permutations(groups.g1.len()) {
                     for variant in 0..2 {
                         let mut anns = if variant == 0 { groups.sequential(&p) } else { groups.interleaved() };
@@ -198,6 +486,8 @@ pub fn explore(ctx: &mut Ctx, label: &str) {
                         ctx.validated();
                         let case = || json!({"facts": f.to_json(), "rust": f.to_rust(false)});
                         match drive::build(&f, Mode::Minimal) {
+                            // a Builder that insists on one name per record id leaves the statement intact
+                            Err(e) if e.starts_with("annotate_") => ctx.bump("open_input_refused", 1),
                             Err(e) => ctx.violation("Builder", "[builder] construction fails on valid facts", json!({"case": case(), "observed": e})),
                             Ok(ont) => match crate::obs::Obs::of(&ont) {
                                 Err(inc) => ctx.violation(&inc.site, "[builder, renamed records] read API inconsistent or panicking", json!({"case": case(), "observed": inc.what})),
@@ -301,7 +591,7 @@ pub fn explore(ctx: &mut Ctx, label: &str) {
     // ---- structured large graphs: inheritance across more than 30 ancestors / parents
     {
         let family = super::common::large_family();
-        ctx.space(&format!("{label}/large-structured"), &format!("{} large shapes; gene 11 on the last term, gene 22 on every 7th term, OMIM on the middle term, ORPHA 77 on the top term and ORPHA 78 on the last two terms, gene 44 and OMIM 600004 on every term, bare records; facts in list order and reversed; Builder, binary v3, JAX", family.len()));
+        ctx.space(&format!("{label}/large-structured"), &format!("{} large shapes; gene 11 on the last term, gene 22 on every 7th term, OMIM on the middle term, ORPHA 77 on the top term and ORPHA 78 on the last two terms, gene 44 and OMIM 600004 on every term, bare records; 60 further genes, 25 OMIM and 25 ORPHA diseases spread over the last three terms (their ancestors inherit more records per term than the per-term containers are pre-sized for: 50 / 20 / 20); facts in list order and reversed; Builder, binary v3, JAX", family.len()));
         for (base, what) in &family {
             if !ctx.take() {
                 continue;
@@ -328,6 +618,16 @@ pub fn explore(ctx: &mut Ctx, label: &str) {
                 anns.push(Facts::ann(crate::model::Kind::Gene, 44, "GENE4", Some(ids[i])));
                 anns.push(Facts::ann(crate::model::Kind::Omim, 600_004, "Disease four, everywhere", Some(ids[i])));
             }
+            // many records per TERM: 60 genes, 25 OMIM and 25 ORPHA diseases, each on one of the last three terms
+            // (in rotation, the kinds interleaved), so that every ancestor of those terms inherits them from several
+            // descendants - more than the 50 / 20 / 20 entries the per-term sets are created with
+            for j in 0..60u32 {
+                anns.push(Facts::ann(Kind::Gene, 1000 + j, &format!("MANY{j}"), Some(ids[n - 1 - (j as usize % 3)])));
+                if j < 25 {
+                    anns.push(Facts::ann(Kind::Omim, 610_000 + j, &format!("Many omim {j}"), Some(ids[n - 1 - ((j as usize + 1) % 3)])));
+                    anns.push(Facts::ann(Kind::Orpha, 9000 + j, &format!("Many orpha {j}"), Some(ids[n - 1 - ((j as usize + 2) % 3)])));
+                }
+            }
             let f = Facts { anns, ..base.clone() };
             let r = RefOnt::derive(&f);
             for reversed in [false, true] {
@@ -344,6 +644,44 @@ pub fn explore(ctx: &mut Ctx, label: &str) {
             ctx.sample(|| json!({"shape": what, "n_terms": n}));
         }
         jax::cleanup();
+    }
+
+    // ---- very deep shapes (beyond round-number depth / work budgets of an upward walk): a gene on the bottom term,
+    // an OMIM disease on the side term, an ORPHA disease half-way; every term above must be linked
+    {
+        let family = super::common::very_deep_family();
+        ctx.space(&format!("{label}/very-deep"), &format!("{} shapes (chains of 1100 and 2100 terms with a shortcut, in the longer one descendants have smaller ids; a ladder of 14 levels with 2^14 routes): gene 11 on the bottom term of the chain, OMIM 600001 on the side term, ORPHA 77 on the middle term, ORPHA 78 on the top, bare records; Builder and binary v3, one case each", family.len()));
+        for (base, what) in &family {
+            let ids: Vec<u32> = base.terms.iter().map(|t| t.id).collect();
+            let n = ids.len();
+            let mk = || -> Facts {
+                let mut f = base.clone();
+                // (in the chains the last term is the side term, the last but one the bottom of the chain)
+                f.anns.push(Facts::ann(Kind::Gene, 11, "GENE1", Some(ids[n - 2])));
+                f.anns.push(Facts::ann(Kind::Gene, 33, "GENE3", None));
+                f.anns.push(Facts::ann(Kind::Omim, 600_001, "Disease one", Some(ids[n - 1])));
+                f.anns.push(Facts::ann(Kind::Omim, 600_002, "Disease two, bare", None));
+                f.anns.push(Facts::ann(Kind::Orpha, 77, "Orpha one", Some(ids[n / 2])));
+                f.anns.push(Facts::ann(Kind::Orpha, 78, "Orpha two", Some(ids[0])));
+                f.anns.push(Facts::ann(Kind::Orpha, 79, "Orpha three, bare", None));
+                f
+            };
+            for path in 0..2 {
+                if !ctx.take() {
+                    continue;
+                }
+                ctx.state();
+                ctx.nontrivial();
+                let f = mk();
+                if path == 0 {
+                    let r = RefOnt::derive(&f);
+                    via_builder(ctx, &f, &r, Mode::Minimal, what);
+                } else {
+                    via_binary(ctx, &f, &EncOpts::v(3), what);
+                }
+                ctx.sample(|| json!({"shape": what, "n_terms": n, "path": if path == 0 { "Builder" } else { "binary v3" }}));
+            }
+        }
     }
 
     // ---- binary path (ids contain both roots)
@@ -365,11 +703,11 @@ pub fn explore(ctx: &mut Ctx, label: &str) {
                 let ids: Vec<u32> = base.terms.iter().map(|t| t.id).collect();
                 // annotated terms may be obsolete and/or replaced: flags follow the annotated subset
                 flag_terms(&mut base, s);
-                let groups = AnnGroups::new(s, &ids);
+                let groups = ann_groups(s, &ids);
                 let ident: Vec<usize> = (0..groups.g1.len()).collect();
                 for p in permutations(groups.g1.len()) {
                     let f = Facts { anns: groups.sequential(&p), ..base.clone() };
-                    via_binary(ctx, &f, &EncOpts::v(3), &format!("term ids inside gene record in order {p:?}"));
+                    via_binary(ctx, &f, &EncOpts::list_order(3), &format!("term ids inside gene record in order {p:?}"));
                 }
                 // gene record orders: permute the three gene groups
                 let gg: [Vec<AnnFact>; 3] = [groups.g1.clone(), groups.g2.clone(), vec![groups.bare[0].clone()]];
@@ -415,7 +753,7 @@ pub fn explore(ctx: &mut Ctx, label: &str) {
     // ---- JAX text path
     for n in 2..=4usize {
         let dags = all_dags(n);
-        ctx.space(&format!("{label}/jax/D{n}"), &format!("{} labelled DAGs over {:?} x 2^{n} subsets x row orders (n<=3: all |S|! gene-row orders; n=4: canonical, reversed, interleaved) x both loaders", dags.len(), &POOL_ROOTS[..n]));
+        ctx.space(&format!("{label}/jax/D{n}"), &format!("{} labelled DAGs over {:?} x 2^{n} subsets (the annotation pattern without its bare records, plus genes 55, 56, OMIM 600055 on the first and ORPHA 81 on the last term) x row orders (n<=3: all |S|! gene-row orders; n=4: canonical, reversed, interleaved) x both loaders; same-named records (a loader may refuse them), filled optional columns, DECIPHER / NOT / comment rows (a disease that only has NOT rows may exist as a record without terms), repeated rows", dags.len(), &POOL_ROOTS[..n]));
         for d in &dags {
             for s in 0..(1u32 << n) {
                 if !ctx.take() {
@@ -429,7 +767,8 @@ pub fn explore(ctx: &mut Ctx, label: &str) {
                 base.version = (2024, 2, 29);
                 let ids: Vec<u32> = base.terms.iter().map(|t| t.id).collect();
                 flag_terms(&mut base, s);
-                let groups = AnnGroups::new(s, &ids);
+                let mut groups = ann_groups(s, &ids);
+                text_extras(&mut groups, &ids);
                 let k = groups.g1.len();
                 let perms: Vec<Vec<usize>> = if n <= 3 { permutations(k) } else { let mut v = vec![(0..k).collect::<Vec<_>>()]; if k > 1 { v.push((0..k).rev().collect()); } v };
                 for (i, p) in perms.iter().enumerate() {
@@ -442,13 +781,16 @@ pub fn explore(ctx: &mut Ctx, label: &str) {
                 let f = Facts { anns: groups.interleaved(), ..base.clone() };
                 via_jax(ctx, &f, &JaxOpts::default(), false, "interleaved rows");
                 // two records of one kind sharing their symbol / name, rows adjacent and separated (a row-level
-                // "skip what repeats the previous row" keyed on the name would drop facts)
+                // "skip what repeats the previous row" keyed on the name would drop facts). A loader that insists on
+                // unique symbols / names and refuses such files leaves the statement intact; one that loads them
+                // must get every fact right
                 for kind in crate::model::KINDS {
                     for adjacent in [true, false] {
                         if let Some(g) = jax::with_shared_name(&f, kind, adjacent) {
                             let w = format!("two {} records with one name, rows {}", kind.name(), if adjacent { "adjacent" } else { "separated" });
-                            via_jax(ctx, &g, &JaxOpts::default(), false, &w);
-                            via_jax(ctx, &g, &JaxOpts::default(), true, &w);
+                            let open = Open { refusal: true, bare_extras: false };
+                            via_jax_open(ctx, &g, &JaxOpts::default(), false, &w, open);
+                            via_jax_open(ctx, &g, &JaxOpts::default(), true, &w, open);
                         }
                     }
                 }
@@ -461,11 +803,13 @@ pub fn explore(ctx: &mut Ctx, label: &str) {
                     via_jax(ctx, &f, &o, true, "interleaved rows, optional columns filled (transitive loader)");
                 }
                 // rows that are not annotations of an OMIM / ORPHA disease: another database (DECIPHER), a NOT-qualified
-                // row of a disease that has positive rows, a NOT-qualified twin of every positive row, comments
+                // row of a disease that has positive rows, a NOT-qualified twin of every positive row, comments. The
+                // ORPHA disease that occurs in a NOT row only is annotated to no term: whether it exists as a record
+                // without terms is left open (it must not be linked to anything)
                 {
                     let mut o = JaxOpts::default();
                     o.distractors = vec![jax::Distractor::DecipherRow, jax::Distractor::NotRowOmimExisting, jax::Distractor::NotRowOrphaOnly, jax::Distractor::NotRowTwinsFirst, jax::Distractor::HpoaCommentMiddle];
-                    via_jax(ctx, &f, &o, false, "interleaved rows; DECIPHER row, NOT rows, comment line");
+                    via_jax_open(ctx, &f, &o, false, "interleaved rows; DECIPHER row, NOT rows, comment line", Open { refusal: false, bare_extras: true });
                 }
                 // repeated rows: every row twice (adjacent), and the whole file twice (distant repeats)
                 let mut twice: Vec<AnnFact> = vec![];
@@ -493,7 +837,7 @@ pub fn explore(ctx: &mut Ctx, label: &str) {
     // ---- sub_ontology of annotated ontologies is consistent with its own facts
     for n in 2..=4usize {
         let dags = all_dags(n);
-        ctx.space(&format!("{label}/sub_ontology/D{n}"), &format!("{} labelled DAGs x 2^{n} subsets x every root, leaves = every term below root and each single leaf", dags.len()));
+        ctx.space(&format!("{label}/sub_ontology/D{n}"), &format!("{} labelled DAGs x 2^{n} subsets x every root, leaves = every term below root and each single leaf: the result's links are the closure of its own records (a refused call gives no verdict here - C14 states when it must succeed)", dags.len()));
         for d in &dags {
             for s in 0..(1u32 << n) {
                 if !ctx.take() {
@@ -505,7 +849,7 @@ pub fn explore(ctx: &mut Ctx, label: &str) {
                 }
                 let base = Facts::from_dag(d, &POOL);
                 let ids: Vec<u32> = base.terms.iter().map(|t| t.id).collect();
-                let groups = AnnGroups::new(s, &ids);
+                let groups = ann_groups(s, &ids);
                 let f = Facts { anns: groups.interleaved(), ..base.clone() };
                 let r = RefOnt::derive(&f);
                 ctx.transitions(f.n_steps());
@@ -531,9 +875,10 @@ pub fn explore(ctx: &mut Ctx, label: &str) {
                         let case = || json!({"source": f.to_json(), "root": root, "leaves": leaves});
                         match res {
                             Ok(Ok(sub)) => self_consistent(ctx, &sub, "sub_ontology", Mode::Minimal, &case),
-                            Ok(Err(e)) => {
+                            // (when sub_ontology has to accept is C14's sentence: a refused call constructs nothing to judge)
+                            Ok(Err(_)) => {
                                 ctx.exec();
-                                ctx.violation("Ontology::sub_ontology", "[sub_ontology] refused although every leaf is root or below root", json!({"case": case(), "observed": e}));
+                                ctx.bump("sub_ontology_refused_no_verdict", 1);
                             }
                             Err(p) => {
                                 ctx.exec();
@@ -550,7 +895,7 @@ pub fn explore(ctx: &mut Ctx, label: &str) {
     {
         let n = 3;
         let dags = all_dags(n);
-        ctx.space(&format!("{label}/as_bytes-round-trip/same-named-records"), &format!("{} labelled DAGs over {:?} x 2^{n} subsets S: genes 11<-S and 12<-complement(S) both named SAME, OMIM 1<-S, 2<-rot1(S) both named 'Same disease', ORPHA 1<-rot2(S), 2<-S with that name too, bare gene 13 named SAME; Builder, then as_bytes -> from_bytes, then once more", dags.len(), &POOL_ROOTS[..n]));
+        ctx.space(&format!("{label}/as_bytes-round-trip/same-named-records"), &format!("{} labelled DAGs over {:?} x 2^{n} subsets S: genes 11<-S and 12<-complement(S) both named SAME, OMIM 1<-S, 2<-rot1(S) both named 'Same disease', ORPHA 1<-rot2(S), 2<-S with that name too, bare gene 13 named SAME; Builder (which may refuse a second record with a known name), then as_bytes -> from_bytes, then once more", dags.len(), &POOL_ROOTS[..n]));
         for d in &dags {
             for s in 0..(1u32 << n) {
                 if !ctx.take() {
@@ -560,45 +905,42 @@ pub fn explore(ctx: &mut Ctx, label: &str) {
                 if inherits(d, s) {
                     ctx.nontrivial();
                 }
-                let mut f = Facts::from_dag(d, &POOL_ROOTS);
-                f.version = (2024, 2, 29);
+                let f = same_named_facts(d, s);
                 let ids: Vec<u32> = f.terms.iter().map(|t| t.id).collect();
-                let full = (1u32 << n) - 1;
-                let on = |mask: u32| -> Vec<u32> { crate::space::bits(mask & full, n).iter().map(|i| ids[*i]).collect() };
-                use crate::model::Kind;
-                for t in on(s) {
-                    f.anns.push(Facts::ann(Kind::Gene, 11, "SAME", Some(t)));
-                    f.anns.push(Facts::ann(Kind::Omim, 1, "Same disease", Some(t)));
-                    f.anns.push(Facts::ann(Kind::Orpha, 2, "Same disease", Some(t)));
-                }
-                for t in on(!s) {
-                    f.anns.push(Facts::ann(Kind::Gene, 12, "SAME", Some(t)));
-                }
-                for t in on(super::common::rot(s, 1, n)) {
-                    f.anns.push(Facts::ann(Kind::Omim, 2, "Same disease", Some(t)));
-                }
-                for t in on(super::common::rot(s, 2, n)) {
-                    f.anns.push(Facts::ann(Kind::Orpha, 1, "Same disease", Some(t)));
-                }
-                f.anns.push(Facts::ann(Kind::Gene, 13, "SAME", None));
                 let r = RefOnt::derive(&f);
                 ctx.transitions(3 * f.n_steps());
-                let Ok(first) = crate::drive::build(&f, Mode::Defaults) else {
-                    ctx.exec();
-                    ctx.violation("Builder", "[builder] construction fails on valid facts", json!({"case": f.to_json()}));
-                    continue;
+                let first = match crate::drive::build(&f, Mode::Defaults) {
+                    Ok(o) => o,
+                    // a Builder that insists on unique symbols / names within a kind leaves the statement intact
+                    Err(e) if e.starts_with("annotate_") => {
+                        ctx.exec();
+                        ctx.bump("open_input_refused", 1);
+                        continue;
+                    }
+                    Err(e) => {
+                        ctx.exec();
+                        ctx.violation("Builder", "[builder] construction fails on valid facts", json!({"case": f.to_json(), "observed": e}));
+                        continue;
+                    }
                 };
                 let case = || json!({"facts": f.to_json(), "path": "Builder -> as_bytes -> from_bytes"});
                 let mut cur = first;
                 for round in 1..=2 {
-                    match crate::ctx::guard(|| cur.as_bytes()).ok().map(|b| crate::drive::from_bytes(&b)) {
-                        Some(Ok(Ok(next))) => {
+                    match crate::ctx::guard(|| cur.as_bytes()).map(|b| crate::drive::from_bytes(&b)) {
+                        Ok(Ok(Ok(next))) => {
                             crate::drive::check_against_model(ctx, &next, &r, Mode::Defaults, if round == 1 { "as_bytes round trip" } else { "second as_bytes round trip" }, &case);
                             cur = next;
                         }
-                        other => {
+                        // (that the library can read what it wrote is C07's sentence: without a second ontology there
+                        // is nothing to judge here)
+                        Ok(Ok(Err(_))) => {
                             ctx.exec();
-                            ctx.violation("Ontology::as_bytes -> from_bytes", "[as_bytes round trip] the library cannot read what it wrote", json!({"case": case(), "observed": format!("{:?}", other.map(|r| r.map(|x| x.map(|_| ()))))}));
+                            ctx.bump("as_bytes_output_refused_no_verdict", 1);
+                            break;
+                        }
+                        Err(p) | Ok(Err(p)) => {
+                            ctx.exec();
+                            ctx.violation("Ontology::as_bytes -> from_bytes", "[as_bytes round trip] panics", json!({"case": case(), "observed": p}));
                             break;
                         }
                     }
@@ -607,6 +949,150 @@ pub fn explore(ctx: &mut Ctx, label: &str) {
             }
         }
     }
+    // ---- `clone()` as a construction path: the copy must be the ontology the model describes and observationally
+    // identical to its source (information content bit for bit), also after the source has been dropped.
+    // (A clone copies the whole id table, about 80 ms: the space is strided.)
+    for n in 2..=(if thorough { 4usize } else { 3 }) {
+        let dags = all_dags(n);
+        let stride = match (n, thorough) {
+            (2, _) => 1,
+            (3, false) => 13,
+            (3, true) => 1,
+            _ => 37,
+        };
+        ctx.space(&format!("{label}/clone/D{n}"), &format!("every {stride}th (1 = all) of the {} x 2^{n} (labelled DAG over {:?}, subset S) pairs (annotation pattern; decoder: annotated terms flagged obsolete / replaced): Builder and binary v3 -> clone() -> source dropped -> the clone against the model and against the observation of its source", dags.len(), &POOL_ROOTS[..n]));
+        for (di, d) in dags.iter().enumerate() {
+            for s in 0..(1u32 << n) {
+                if (di * (1usize << n) + s as usize) % stride != 0 {
+                    continue;
+                }
+                if !ctx.take() {
+                    continue;
+                }
+                ctx.state();
+                if inherits(d, s) {
+                    ctx.nontrivial();
+                }
+                let mut base = Facts::from_dag(d, &POOL_ROOTS);
+                base.version = (2024, 2, 29);
+                let ids: Vec<u32> = base.terms.iter().map(|t| t.id).collect();
+                let groups = ann_groups(s, &ids);
+                let f = Facts { anns: groups.interleaved(), ..base.clone() };
+                let mut flagged = f.clone();
+                flag_terms(&mut flagged, s);
+                for (path, g) in [("builder", &f), ("binary v3", &flagged)] {
+                    let r = RefOnt::derive(g);
+                    ctx.transitions(g.n_steps() + 1);
+                    let built = if path == "builder" { drive::build(g, Mode::Defaults) } else { drive::from_bytes(&crate::encode::encode(g, &EncOpts::v(3))).unwrap_or_else(|p| Err(format!("panic: {p}"))) };
+                    let src = match built {
+                        Ok(o) => o,
+                        Err(e) => {
+                            ctx.exec();
+                            ctx.violation(if path == "builder" { "Builder" } else { "Ontology::from_bytes" }, &format!("[{path}] construction fails on valid facts"), json!({"case": g.to_json(), "observed": e}));
+                            continue;
+                        }
+                    };
+                    let case = || json!({"facts": g.to_json(), "path": format!("{path} -> clone()")});
+                    let before = Obs::of(&src);
+                    let copy = match guard(|| src.clone()) {
+                        Ok(c) => c,
+                        Err(p) => {
+                            ctx.exec();
+                            ctx.violation("Ontology::clone", &format!("[{path} -> clone] panics"), json!({"case": case(), "observed": p}));
+                            continue;
+                        }
+                    };
+                    drop(src);
+                    if let (Some(after), Ok(before)) = (drive::check_against_model(ctx, &copy, &r, Mode::Defaults, &format!("{path} -> clone"), &case), before) {
+                        drive::check_same(ctx, &before, &after, &format!("{path} -> clone vs. its source"), &case);
+                    }
+                }
+                ctx.sample(|| json!({"dag": d.describe(), "ids": ids, "S": crate::space::bits(s, n)}));
+            }
+        }
+    }
+
+    // ---- record ids over the whole 32-bit range (the patterns above use small ids): per kind the records A <- S,
+    // B <- complement(S), C <- rot(S), D <- first term, E bare with (A, B, C, D, E) = (1, 2^24+1, 124 904 395,
+    // u32::MAX, 2^31) - and the same with 0 in place of 1 (whether 0 is a record id at all is left open: such a
+    // fact set may be refused)
+    for n in 2..=3usize {
+        let dags = all_dags(n);
+        ctx.space(&format!("{label}/record-ids-over-the-whole-range/D{n}"), &format!("{} labelled DAGs over {:?} x 2^{n} - 1 subsets S x record ids {{1 | 0, 2^24+1, 124904395, u32::MAX, and 2^31 without terms}} in every kind (kind k uses S rotated by k): Builder, binary v1 - v3, both text loaders; with id 0 a refusal is tolerated", dags.len(), &POOL_ROOTS[..n]));
+        for d in &dags {
+            for s in 1..(1u32 << n) {
+                if !ctx.take() {
+                    continue;
+                }
+                ctx.state();
+                if inherits(d, s) {
+                    ctx.nontrivial();
+                }
+                let mut base = Facts::from_dag(d, &POOL_ROOTS);
+                base.version = (2024, 2, 29);
+                let ids: Vec<u32> = base.terms.iter().map(|t| t.id).collect();
+                let full = (1u32 << n) - 1;
+                for lowest in [1u32, 0] {
+                    let rec = [lowest, (1 << 24) + 1, 124_904_395, u32::MAX, 1 << 31];
+                    let mut f = base.clone();
+                    for (ki, kind) in KINDS.iter().enumerate() {
+                        let sk = super::common::rot(s, ki, n);
+                        let name = |j: usize| format!("{}{}", ["GA", "GB", "GC", "GD", "GE"][j], ki);
+                        for i in 0..n {
+                            if sk >> i & 1 == 1 {
+                                f.anns.push(Facts::ann(*kind, rec[0], &name(0), Some(ids[i])));
+                            }
+                            if (full & !sk) >> i & 1 == 1 {
+                                f.anns.push(Facts::ann(*kind, rec[1], &name(1), Some(ids[i])));
+                            }
+                            if super::common::rot(sk, 1, n) >> i & 1 == 1 {
+                                f.anns.push(Facts::ann(*kind, rec[2], &name(2), Some(ids[i])));
+                            }
+                        }
+                        f.anns.push(Facts::ann(*kind, rec[3], &name(3), Some(ids[0])));
+                        f.anns.push(Facts::ann(*kind, rec[4], &name(4), None));
+                    }
+                    // facts of the kinds interleaved (stable by position inside the kind)
+                    let mut anns: Vec<AnnFact> = vec![];
+                    let per_kind: Vec<Vec<AnnFact>> = KINDS.iter().map(|k| f.anns.iter().filter(|a| a.kind == *k).cloned().collect()).collect();
+                    for i in 0..per_kind.iter().map(|v| v.len()).max().unwrap_or(0) {
+                        for v in &per_kind {
+                            if let Some(a) = v.get(i) {
+                                anns.push(a.clone());
+                            }
+                        }
+                    }
+                    f.anns = anns;
+                    let open = Open { refusal: lowest == 0, bare_extras: false };
+                    let what = format!("record ids {rec:?}");
+                    let r = RefOnt::derive(&f);
+                    ctx.transitions(f.n_steps());
+                    match drive::build(&f, Mode::Defaults) {
+                        Ok(ont) => {
+                            let case = || json!({"facts": f.to_json(), "order": what, "rust": f.to_rust(true)});
+                            judge(ctx, &ont, &r, Mode::Defaults, "builder", &case, open);
+                        }
+                        Err(e) if open.refusal && e.starts_with("annotate_") => {
+                            ctx.exec();
+                            ctx.bump("open_input_refused", 1);
+                        }
+                        Err(e) => {
+                            ctx.exec();
+                            ctx.violation("Builder", "[builder] construction fails on valid facts", json!({"case": f.to_json(), "observed": e, "order": what}));
+                        }
+                    }
+                    for version in [3u8, 2, 1] {
+                        via_binary_open(ctx, &f, version, &what, open);
+                    }
+                    via_jax_open(ctx, &f, &JaxOpts::default(), false, &what, open);
+                    via_jax_open(ctx, &f, &JaxOpts::default(), true, &what, open);
+                }
+                ctx.sample(|| json!({"dag": d.describe(), "ids": ids, "S": crate::space::bits(s, n), "record_ids": [1, (1u32 << 24) + 1, 124_904_395u32, u32::MAX, 1u32 << 31]}));
+            }
+        }
+        jax::cleanup();
+    }
+
     // ---- sequences of ontologies built one after the other at the same address
     super::common::ontology_sequences(ctx, label, Mode::Minimal, &mut super::common::obs_oracle(Mode::Minimal));
 }
@@ -650,9 +1136,11 @@ fn sub_exact(ctx: &mut Ctx, label: &str) {
 }
 
 pub fn run(ctx: &mut Ctx) {
-    ctx.rule = "case = (labelled DAG, annotated subset S) with all listed supply orders of the annotation facts; records: genes 11<-S, 22<-complement(S), bare 33; OMIM 600001<-rot1(S), bare 600002; ORPHA 77<-rot2(S), 78<-every term, bare 79, 80; distinct by construction; non-trivial = some annotated term has ancestors (inheritance must happen)".into();
+    ctx.rule = "case = (labelled DAG, annotated subset S) with all listed supply orders of the annotation facts; records: genes 11<-S, 22<-complement(S), bare 33; OMIM 600001<-rot1(S), bare 600002; ORPHA 77<-rot2(S), 78<-every term, bare 79, 80; bare records of minimal size (totals 6 genes / 3 OMIM / 5 ORPHA); distinct by construction; non-trivial = some annotated term has ancestors (inheritance must happen)".into();
     ctx.assumptions = vec![
-        "one name per record id; acyclic graphs; every annotated term exists".into(),
+        "acyclic graphs; every annotated term exists (calls naming an absent term are issued between the facts, their return value is ignored: they are not facts, and what they return is C15's statement)".into(),
+        "left open by the statement and therefore 'refused, or everything holds': a second name for a known record id, two records of one kind with one name, record id 0; a record WITHOUT terms that no fact names (a disease with NOT rows only, a record registered by a failing call) may exist - it must be linked to nothing".into(),
+        "when sub_ontology must succeed (C14) and whether as_bytes output can be read back (C07) are not judged here: a refusal there ends the case without verdict, a panic is reported".into(),
         "bare records (no term) are not expressible in the JAX text formats and are left out of that path".into(),
         "HashMap iteration order is not controlled; observations are sorted".into(),
     ];
